@@ -205,6 +205,37 @@ def source_shape_is_cameras(prog, res):
                  "the frame header's shape is not taken from the ImageInfo that camera_get_frame filled for that frame")
 
 
+def commit_only_filled(prog, res):
+    """video_source_thread: from a successful channel_write_map every path to
+    channel_write_unmap passes the header fill (*im = (struct VideoFrame){..})
+    or channel_abort_write: a region whose header was not written is never
+    published as a frame."""
+    R = "R-PRODUCER"
+    f = prog.func("video_source_thread")
+    maps = [(b.id, i, s) for b, i, s in f.all_stmts() if any(c.get("fn") == "channel_write_map" for c in ir.calls_in(s))]
+    commits = {(b.id, i) for b, i, s in f.all_stmts() if any(c.get("fn") == "channel_write_unmap" for c in ir.calls_in(s))}
+    if not maps or not commits:
+        raise AnalysisBroken("video_source_thread: map / commit of the frame region not found")
+
+    def fills_or_aborts(s):
+        if any(c.get("fn") == "channel_abort_write" for c in ir.calls_in(s)):
+            return True
+        for lv, op, rhs, w in ir.writes_of(s):
+            r0 = ir.strip(rhs) if isinstance(rhs, dict) else None
+            if isinstance(r0, dict) and r0.get("k") == "init" and r0.get("r") == "VideoFrame" and ir.strip(lv).get("k") in ("deref", "idx"):
+                return True
+        return False
+    for bid, i, s in maps:
+        ok, w = paths.all_paths_pass(f, (bid, i), commits, paths.through_callees(prog, f, fills_or_aborts))
+        inst = "video_source_thread: a mapped region is committed only after its header was filled (or the write was aborted)"
+        if ok:
+            res.oblige(R, inst, True, "header fill or channel_abort_write on every path from the map to channel_write_unmap", f.loc(s))
+        else:
+            res.fail(R, inst, "R-PRODUCER|video_source_thread|commit-unfilled", f.loc(s),
+                     "video_source_thread can call channel_write_unmap for a region whose header it neither filled nor aborted (the camera returned no data): "
+                     "readers step through stale bytes as if they were a frame", {"path_blocks": w})
+
+
 def consumers(prog, res):
     R = "R-STEP"
     names = list(CONSUMERS)
@@ -296,11 +327,12 @@ def run(ctx, res):
     witnesses(ctx, res)
     n = producers(prog, res)
     source_shape_is_cameras(prog, res)
+    commit_only_filled(prog, res)
     consumers(prog, res)
     bytes_of_type_table(prog, res)
     if n < 2:
         raise AnalysisBroken("expected two frame producers (source, filter), found %d" % n)
     res.require_min("WITNESS", 7)
-    res.require_min("R-PRODUCER", 11)
+    res.require_min("R-PRODUCER", 12)
     res.require_min("R-STEP", 4)
     res.require_min("T-EXH", 6)
